@@ -173,14 +173,14 @@ func TestVerif_C16(t *testing.T) {
 	// origin-rich PRNG configurations (several schemes/ports per host, IP literals, `*` mixes) after the product
 	{
 		rng := rand.New(rand.NewPCG(r.Seed, 16))
-		for i := 0; i < pick(r, 300, 6000); i++ {
+		for i := 0; i < pick(r, 120, 6000); i++ {
 			prod = append(prod, randRichValidCfg(rng))
 		}
 	}
 	cfgStride := pick(r, 5, 1)
 	nRand := pick(r, 300, 2500)
 	r.Parallel(len(prod), func(l *Local) {
-		if l.Batch < nProd && (l.Batch+int(r.Seed))%cfgStride != 0 {
+		if l.Batch < nProd && !r.visit(l.Batch, cfgStride) {
 			return
 		}
 		c := withCanaries(prod[l.Batch])
